@@ -23,5 +23,9 @@ CASES = [
  ('contracts.viability', BC, '            train_viable = min_freq_train and distinct_rates_train', '            train_viable = distinct_rates_train and min_freq_train', None),
  ('contracts.viability', BC, '            if best_association is not None:\n                break', '            if best_association is None:\n                continue\n            break', None),
  ('contracts.viability', BC, '        best_association, train_viable, dev_viable = (None,) * 3', '        best_association = None\n        train_viable = None\n        dev_viable = None', None),
+ ('contracts.conversion', BD, 'which_to_keep', 'finite_values', 'ALL'),
+ ('contracts.conversion', BD, '                    kept_value = group_to_discard[0]', '                    kept_value = group_to_discard[-1]', None),          # (only missing markers in the group, duplicate-free: one element)
+ ('contracts.conversion', BD, '        # updating ordering\n        values_orders.update({feature: order})\n\n    return values_orders', '    return values_orders', None),   # (order IS values_orders[feature])
+ ('contracts.conversion', BD, '                order = labels_orders[feature]\n                order.append(str_nan)  # adding back nans at the end of the order\n                labels_orders.update({feature: order})', '                labels_orders[feature].append(str_nan)', None),
  ('contracts.update_discretizer', BD, '        values_orders = {k: v for k, v in self.values_orders.items()}\n        order = values_orders[feature]', '        order = self.values_orders[feature]', None),
 ]
